@@ -79,6 +79,11 @@ CLAIMS = {
    note="Run as root (no permission-denied paths); timestamps of directories and of symlinks themselves not compared; known findings: directory mode | 0o700, same-size-same-mtime quick check.",
    technique="TLA+ decision-table model of the rsync receiver model-checked with TLC over the full pair-complete case space (incl. 2 mutants); cases replayed on the real RSync over a real gateway; outcomes validated by TLC",
    ref="5/C17"),
+ "C11": dict(
+   text="spec/Termination.tla models the worker's exit ladder (EOF/terminate seen, pool shutdown, waitall 5 s, SIGINT to itself, waitall 10 s, os._exit) against an environment automaton (idle, blocked in receive, busy, sleeping, swallowing KeyboardInterrupt, stopped, dead) with a discrete clock; TLC checks that the worker is gone within 15 ticks by the expected rung and kills the sys.exit-instead-of-os._exit mutant. Real initiator processes create workers over popen / popen//python= / via / socket with thread, main_thread_only and gevent execmodels running generated activities and are SIGKILLed, close the connection, _exit, or die in the middle of a frame or of the bootstrap; every worker pid is watched in /proc and TLC compares the observed time-to-exit with the model's rung deadline (spec/TermCases.tla).",
+   note="Wall-clock bounds with fixed slack (3-5.5 s); via= adds one 5 s rung per forwarding level; the OS chooses schedules. Known finding: gevent workers with non-cooperative bodies.",
+   technique="TLA+ model of the worker exit ladder with discrete clock model-checked with TLC (incl. mutant); real initiator/worker processes with generated activities and death modes; timed observations validated by TLC against the model's rung deadlines",
+   ref="5/C11"),
 }
 
 NOT_YET = {}
